@@ -8,6 +8,7 @@ use radix_common::prelude::*;
 use radix_transactions::manifest::compiler::*;
 use radix_transactions::manifest::lexer::{tokenize, ExpectedChar, LexerError, LexerErrorKind};
 use radix_transactions::manifest::token::Token;
+use radix_transactions::manifest::parser::{Parser, ParserErrorKind, PARSER_MAX_DEPTH};
 use radix_transactions::manifest::*;
 use serde_json::json;
 use vh_common::*;
@@ -159,6 +160,20 @@ fn fam_lex() -> Vec<(String, String)> {
         v.push((format!("lex_int_{}_at_eof", ty), format!("7{}", ty)));
         v.push((format!("lex_int_{}_leading_zero", ty), format!("07{} ", ty)));
     }
+    // parser: every instruction keyword (generated table) with one value too few, exactly enough, one and two too many
+    if let Ok(tbl) = std::fs::read_to_string("/verif/coq/Gen/C31_instructions.v") {
+        for line in tbl.lines() { if let Some(rest) = line.trim().strip_prefix("(s2l \"") { if let Some(q) = rest.find('"') {
+            let kw = &rest[..q]; let tail = &rest[q + 1..]; let fixed: usize = tail.trim_start_matches(", ").split('%').next().unwrap().trim().parse().unwrap_or(0);
+            for n in [fixed.saturating_sub(1), fixed, fixed + 1, fixed + 2] { v.push((format!("parse_kw_{}_{}values", kw, n), format!("{}{};", kw, " Tuple(1u8)".repeat(n)))); }
+            v.push((format!("parse_kw_{}_no_semicolon", kw), format!("{}{}", kw, " 1u8".repeat(fixed))));
+            v.push((format!("parse_kw_{}_twice", kw), format!("{}{};\n{}{};", kw, " 1u8".repeat(fixed), kw, " 1u8".repeat(fixed)))); } } }
+    }
+    for (c, t) in [("parse_unknown_keyword", "FOO 1u8;"), ("parse_lowercase_keyword", "call_method 1u8;"), ("parse_value_as_instruction", "Tuple();"), ("parse_literal_as_instruction", "1u8;"), ("parse_only_semicolon", ";"),
+        ("parse_nested_bad_arg", "CALL_METHOD 1u8 2u8 Tuple(;);"), ("parse_top_bad_arg", "CALL_METHOD 1u8 2u8 );"), ("parse_keyword_as_arg", "CALL_METHOD 1u8 2u8 CALL_METHOD;"), ("parse_depth_20_arg", &format!("CALL_METHOD 1u8 2u8 {}{};", "Tuple(".repeat(19), ")".repeat(19))),
+        ("parse_depth_21_arg", &format!("CALL_METHOD 1u8 2u8 {}1u8{};", "Tuple(".repeat(20), ")".repeat(20))), ("parse_trailing_comma", "CALL_METHOD 1u8 2u8 Tuple(1u8,);"), ("parse_double_comma", "CALL_METHOD 1u8 2u8 Tuple(1u8,,2u8);"),
+        ("parse_some_two_values", "CALL_METHOD 1u8 2u8 Some(1u8, 2u8);"), ("parse_some_no_value", "CALL_METHOD 1u8 2u8 Some();"), ("parse_array_two_kinds", "CALL_METHOD 1u8 2u8 Array<U8, U8>();"), ("parse_map_one_kind", "CALL_METHOD 1u8 2u8 Map<U8>();"),
+        ("parse_map_missing_arrow", "CALL_METHOD 1u8 2u8 Map<U8, U8>(1u8, 2u8);"), ("parse_enum_u16_discriminator", "CALL_METHOD 1u8 2u8 Enum<1u16>();"), ("parse_enum_unknown_name", "CALL_METHOD 1u8 2u8 Enum<Foo::Bar>();"),
+        ("parse_array_bad_kind", "CALL_METHOD 1u8 2u8 Array<Foo>();"), ("parse_none_with_parens", "CALL_METHOD 1u8 2u8 None();")] { v.push((c.to_string(), t.to_string())); }
     for (c, t) in [("lex_multibyte_last", "é"), ("lex_multibyte_after_token", "( é"), ("lex_non_bmp_last", "😀"), ("lex_multibyte_in_ident_pos", "abcé"), ("lex_multibyte_after_digit", "12é"), ("lex_multibyte_after_type", "1u8é"),
         ("lex_multibyte_in_type", "1ué"), ("lex_string_multibyte_last", "\"é"), ("lex_string_multibyte_closed", "\"é😀\""), ("lex_comment_multibyte_eof", "# é😀"), ("lex_comment_then_token", "# c\n;"), ("lex_hash_in_string", "\"#\""),
         ("lex_comment_cr_only", "# c\r;"), ("lex_eq_gt", "=>"), ("lex_eq_space_gt", "= >"), ("lex_eq_eof", "="), ("lex_all_punct", "(),;<>=>"), ("lex_bad_punct_brace", "{"), ("lex_bad_punct_amp", "&"), ("lex_ident_colon", "A::b_9:"),
@@ -195,7 +210,7 @@ fn main() {
          200) and LF/CRLF/CR/mixed line endings, plus arbitrary strings; compiled as V1, SystemV1, V2, SubintentV2 twice + diagnostics in both styles under \
          catch_unwind. stream B (model): string-literal texts vs lexer. non-trivial = mutated template or a string literal with an escape",
     );
-    let mut cw = CaseWriter::new("RV.Corr.C31_run RV.Model.C30_Text RV.Model.C31_Lexer", "check");
+    let mut cw = CaseWriter::new("RV.Corr.C31_run RV.Model.C30_Text RV.Model.C31_Lexer RV.Model.C30_Value RV.Model.C31_Parser", "check");
     let root = Rng::new(args.seed);
     let net = NetworkDefinition::simulator();
     let temps = templates();
@@ -281,6 +296,19 @@ fn main() {
                     Ok(Err(e)) => { report.count("lex_err"); lex_err_coq(e).replacen("(SErr", "(LErr", 1) }
                 };
                 cw.push(format!("CLex {} {}", chars_coq(&text), out));
+                if let Ok(Ok(toks)) = &r {
+                    let t = toks.clone();
+                    let pr = catch(move || -> Result<usize, ParserErrorKind> { let mut p = Parser::new(t, PARSER_MAX_DEPTH).map_err(|e| e.error_kind)?; p.parse_manifest().map(|v| v.len()).map_err(|e| e.error_kind) });
+                    let res = match &pr {
+                        Err(p) => { report.oracle_failure(i, "", &format!("parser panicked: {}", p), json!({"text": text})); "MPanic".to_string() }
+                        Ok(Ok(n)) => { report.count("parse_ok"); format!("(MOk {})", n) }
+                        Ok(Err(k)) => { report.count("parse_err"); format!("(MErr {})", match k {
+                            ParserErrorKind::UnexpectedEof => "PEof", ParserErrorKind::UnexpectedToken { .. } | ParserErrorKind::InvalidArgument { .. } => "PUnexpected",
+                            ParserErrorKind::InvalidNumberOfValues { .. } => "PNumValues", ParserErrorKind::InvalidNumberOfTypes { .. } => "PNumTypes",
+                            ParserErrorKind::UnknownEnumDiscriminator { .. } => "PUnmodelled", ParserErrorKind::MaxDepthExceeded { .. } => "PMaxDepth" }) }
+                    };
+                    cw.push(format!("CManifest {} {}", coq_list(toks.iter().map(tok_coq)), res));
+                }
                 continue;
             }
             // ---- stream B: one string literal ----
@@ -313,6 +341,8 @@ fn main() {
     report.floor("string_ok", n / 60);
     report.floor("string_err", n / 60);
     report.floor("lex_ok", n / 60);
+    report.floor("parse_ok", n / 60);
+    report.floor("parse_err", n / 60);
     report.floor("lex_err", n / 60);
     cw.write(&args.out, args.shards).unwrap();
     report.write(&args.out).unwrap();
